@@ -100,6 +100,10 @@ func (w *World) genBatchSize() int {
 		den = 60
 	}
 	if c.Prob(1, den, "batch.large") {
+		if c.Prob(1, 4, "batch.boundary") {
+			// document counts at the doc-value / posting chunk boundaries
+			return []int{1023, 1024, 1025, 2048}[c.Choose(4, "batch.boundaryN")]
+		}
 		if w.LargeDen != 0 && c.Bool("batch.verylarge") {
 			// postings lists beyond 1024 hits: chunk modes 1025/1026 then depend on
 			// the cardinality, before and after deletions
